@@ -199,7 +199,8 @@ def apply_tags(ary, tags):
     import pytato as pt
     for t in tags or []:
         if t[0] == "Axis":
-            if isinstance(ary, pt.Array) and t[1] < ary.ndim:
+            # (negative axis numbers count from the end, as everywhere else)
+            if isinstance(ary, pt.Array) and -ary.ndim <= t[1] < ary.ndim:
                 ary = ary.with_tagged_axis(t[1], user_tag(t[2]))
         elif t[0] == "Redn":
             if isinstance(ary, pt.IndexLambda):
